@@ -177,7 +177,7 @@ Definition mask_obs (m : pmask) (o : obsrow) : obsrow :=
 
 Definition mask_snap (m : pmask) (s : snapshot) : snapshot :=
   mkSnap (sn_colls s) (map (fun e => (fst e, mask_obs m (snd e))) (sn_rows s))
-         (if pm_order m then sn_order s else []) [].
+         (if pm_order m then sn_order s else []) (if pm_exp m && pm_del m then sn_lastcas s else []).
 
 Definition mask_ostep (m : pmask) (o : ostep) : ostep :=
   mkOstep (if pm_resp m then mask_resp m (os_resp o) else ROk)
@@ -266,3 +266,11 @@ Definition kv_corr_C11 (c : scase * list ostep) : bool :=
       end
   | Some _ => false
   end.
+
+(* family ttl (real time): the model supplies the expiry in force, the checker judges the poll times *)
+Definition ttl_chk_ok (t : scase * ttl_run) : bool := chk_ttl t.
+Definition ttl_model (c : scase) := map (fun d => (fst d, r_exp (snd d), is_some (r_value (snd d)))) (s_docs (sfinal_from store0 (sc_steps c))).
+Definition kv_chk_C14 (c : scase * list ostep) : bool := chk_C14_kv c.
+(*                               resp  body  cas   exp   xattr rev   json  del   live  order *)
+Definition mask_C14 := mkMask    true  true  false true  false false false true  true  false.
+Definition kv_corr_C14 := kv_corr_proj mask_C14 rel_all.
